@@ -332,6 +332,8 @@ class Ctx:
                 self.obligations.append((n, False, []))
             self.broken_log = out
             return False
+        if self.tier == 'thorough' and os.environ.get('VERIF_NO_COQCHK') != '1':
+            self.coqchk()
         blocks = re.split(r'(?m)^(?=Closed under the global context|Axioms:|Section Variables:)', out)
         blocks = [b.strip() for b in blocks if b.strip()]
         for k, n in enumerate(names):
@@ -339,6 +341,22 @@ class Ctx:
             ass = [] if b.startswith('Closed under') else [re.sub(r'\s+', ' ', b)]
             self.obligations.append((n, True, ass))
         return True
+
+    def coqchk(self, timeout=2400):
+        """thorough tier: independent re-check of Props/Cxx.vo and everything it depends on, with the axiom list"""
+        rc, out = sh(['coqchk', '-o', '-silent', '-Q', COQ, 'Plinio', 'Plinio.Props.%s' % self.prop], timeout, cwd=COQ)
+        self.checker_cmds.append('coqchk -o -silent -Q /verif/coq Plinio Plinio.Props.%s' % self.prop)
+        summ = out[out.find('CONTEXT SUMMARY'):] if 'CONTEXT SUMMARY' in out else out[-1500:]
+        m = re.search(r'\* Axioms:(.*?)\n\s*\n\* Constants', summ, flags=re.S)
+        axioms = re.sub(r'\s+', ' ', m.group(1)).strip() if m else '?'
+        self.extra['coqchk'] = {'exit': rc, 'axioms': axioms, 'summary': re.sub(r'[ \t]+', ' ', summ)[:1500]}
+        if rc == 124:
+            self.notes.append('coqchk timed out after %ds (the proofs by vm_compute are re-evaluated by its slower reduction); not counted as a failure' % timeout)
+        elif rc != 0:
+            self.obligations.append(('coqchk:Props.%s' % self.prop, False, []))
+            self.broken_log = out[-3000:]
+        else:
+            self.obligations.append(('coqchk:Props.%s' % self.prop, True, [] if axioms == '<none>' else ['coqchk axioms: ' + axioms]))
 
     def coq_eval(self, name, imports, defs, exprs, timeout=900):
         """evaluate `exprs` (Coq terms) with vm_compute in one coqc run; returns parsed values,
